@@ -44,6 +44,24 @@ fn plan(prop: &str, tier: Tier) -> Option<Plan> {
                 "known-finding triage uses the library's own one-chunk tokenisation to locate comment / raw-text spans",
             ],
         },
+        "C04" => Plan {
+            level: "fault_enumeration",
+            batches: vec![b("W2", "conserve", 1500, 30000), b("W2", "faults", 6000, 150000)],
+            assumptions: vec![
+                "sentinel values never occur in generated bodies, so inserted bytes are removable",
+                "replace_text filters are excluded: the statement's clauses do not cover whole-body replacement",
+                "for a corrupted *compressed* stream conservation is not stated on bytes; only pass-through after the error is required (DESIGN §3 C04)",
+                "truncation points are enumerated per document (every prefix), corruption positions are sampled",
+            ],
+        },
+        "C14" => Plan {
+            level: "exploration",
+            batches: vec![b("W2", "codec", 1600, 40000)],
+            assumptions: vec![
+                "flate2 / brotli reader-side decoders and encoders are trusted as independent codecs (the library uses the writer-side types)",
+                "the plain reference is the same real filter code on the decompressed body in one chunk, as the property states",
+            ],
+        },
         _ => return None,
     })
 }
